@@ -129,7 +129,7 @@ _add("C03", H("K10_dvoffsets"))
 _add("C10", H("H10_vec", common={"vectors": True}, quick={"wall": "150s", "shards": 16, "param": "nCat=1,secondField=1"}, thorough={"wall": "1500s", "shards": 16, "param": "nCat=2,secondField=1,bMax=2"}))
 _add("C14", H("H10_vec", common={"vectors": True}, quick={"wall": "150s", "shards": 16, "param": "nCat=1,secondField=1"}, thorough={"skip": True}))
 # sparse vector field: two documents in the first input, one vector choice
-_add("C15", H("H15_vecmerge", common={"vectors": True}, quick={"wall": "150s", "shards": 16, "param": "nCat=1,reopen=0,maxDocs=2,maxDocs1=1,secondField=0"}, thorough={"wall": "1500s", "shards": 16, "param": "nCat=2,reopen=1,maxDocs=2,maxDocs1=1,secondField=1"}))
+_add("C15", H("H15_vecmerge", common={"vectors": True}, quick={"wall": "150s", "shards": 16, "param": "nCat=1,reopen=0,maxDocs=2,maxDocs1=1,secondField=0,altSim=1"}, thorough={"wall": "1500s", "shards": 16, "param": "nCat=2,reopen=1,maxDocs=2,maxDocs1=1,secondField=1"}))
 # two vector fields with adjacent ids in the cache
 _add("C16", H("H16_fields", common={"vectors": True}, quick={"wall": "150s", "shards": 16, "param": "maxEvents=5"}, thorough={"wall": "1500s", "shards": 16, "param": "maxEvents=7"}))
 
